@@ -46,7 +46,9 @@ def gen_one(r, i, tier):
         if vect and c < 0.15:
             rows = [d for d, _ in base.small_stream(r, spec, r.randint(0, 5), [1.0], cats=["a", "b", "zz", ""])]
             rows = [[float(v) if not isinstance(v, str) else v for v in d] for d in rows]
-            ops.append(("fillnp", r.randrange(npool), rows, [r.choice([1.0, 2.0, 0.5, 0.0]) for _ in rows]))
+            # (no zero weights here: the kernels leave an empty bin behind for a zero-weight row, which
+            # the snapshots prune but which can change the outcome of hash(); C03 / C05 cover them)
+            ops.append(("fillnp", r.randrange(npool), rows, [r.choice([1.0, 2.0, 0.5, 0.25]) for _ in rows]))
         elif c < 0.5:
             d = base.small_stream(r, spec, 1, [1.0])[0][0] if dyadic else gen.datum(r, vals)
             ops.append(("fill", r.randrange(npool), d, r.choice(gen.POSWEIGHTS)))
@@ -60,7 +62,10 @@ def gen_one(r, i, tier):
             ops.append(("copy", r.randrange(npool))); npool += 1
         elif c < 0.92 and npool < 7:
             ops.append(("zero", r.randrange(npool))); npool += 1
-        elif c < 0.94:
+        elif c < 0.94 and not vect:
+            # (after a vectorised fill a Categorize below another binning node holds an empty bin for
+            # every category of the batch - the kernels pass all rows down with masked weights - so
+            # whether hash() meets bool and str keys in one node is not what the row model says)
             ops.append(("hash", r.randrange(npool)))
         elif c < 0.97:
             ops.append(("pure", r.randrange(npool), r.randrange(npool)))
